@@ -4,9 +4,13 @@ with the C05 index model Model/Lsm) on protocol lines.  Three streams, selected 
 line: `dyn` (DynamicContainer), `inst` (Installation), `arch` (ArchiveManager alone), `lim`
 (an installation on a pre-sized `data.000`: limit arithmetic + index offset across a reopen).
 MD5 = Spec/Md5; zlib / LZ4 are the graph of the (plain, compressed) pairs the request lines carry.
+The `dyn` / `inst` streams run `Container.stepTC` / `istepTC`: the steps of Model/Container with
+the data file kept in the pieces it was written in (Model/ArchiveChunked) and the index tables
+stored after each step; `Props.C04.chunked_steps_are_the_model` and `tabulated_steps_are_the_model`
+prove that their outputs are those of `Container.step` / `istep` on every history.
 -/
 import Driver.Common
-import Cascette.Model.Container
+import Cascette.Model.ArchiveChunked
 import Cascette.Spec.Md5
 open Cascette Drv
 open Cascette.Model
@@ -23,8 +27,8 @@ def paramsOf (t : Tab) : Archive.Params :=
 
 inductive St
   | none
-  | dyn (cfg : Lsm.Cfg) (s : Container.State)
-  | inst (cfg : Lsm.Cfg) (s : Container.IState)
+  | dyn (cfg : Lsm.Cfg) (s : Container.CState)
+  | inst (cfg : Lsm.Cfg) (s : Container.CIState)
   | arch (s : Archive.State) (t : Tab)
   | lim (cfg : Lsm.Cfg)
 
@@ -139,9 +143,9 @@ def handle (st : St) (toks : List String) : St × String :=
       match kv? cp "cap_pages=", kv? pp "per_page=", kv? h "hdr=" with
       | some cp, some pp, some h =>
         if h ≠ Archive.headerSize then (.none, "ok")
-        else if k = "dyn" then (.dyn ⟨cp, pp⟩ Container.State.init, "ok")
+        else if k = "dyn" then (.dyn ⟨cp, pp⟩ Container.CState.init, "ok")
         else if k = "lim" then (.lim ⟨cp, pp⟩, "ok")
-        else (.inst ⟨cp, pp⟩ Container.IState.init, "ok")
+        else (.inst ⟨cp, pp⟩ Container.CIState.init, "ok")
       | _, _, _ => (st, "bad-op")
     | _, _ => (st, "bad-op")
   | _ =>
@@ -154,13 +158,13 @@ def handle (st : St) (toks : List String) : St × String :=
       | _ =>
         match dynOp? toks with
         | some op =>
-          let (s', o) := Container.stepT (paramsOf []) cfg s op
+          let (s', o) := Container.stepTC (paramsOf []) cfg s op
           (.dyn cfg s', showOut o)
         | none => (st, "bad-op")
     | .inst cfg s =>
       match instOp? toks with
       | some op =>
-        let (s', o) := Container.istepT (paramsOf []) cfg s op
+        let (s', o) := Container.istepTC (paramsOf []) cfg s op
         (.inst cfg s', showIOut o)
       | none => (st, "bad-op")
     | .lim cfg =>
